@@ -462,9 +462,12 @@ class CatalogMachine(Machine):
             out = []
             for p in st.props:
                 v = self._fval(st, p)
-                if isinstance(v, np.ndarray) and v.ndim == 1 and \
+                # per-source scalars and per-source arrays (centroid,
+                # moments, covariance, ...): anything a table can hold
+                if isinstance(v, np.ndarray) and v.ndim >= 1 and \
                         v.dtype.kind in 'iuf' and p not in st.null_bad \
-                        and p not in ALWAYS_ITERABLE:
+                        and p not in ALWAYS_ITERABLE \
+                        and len(v) == st.n:
                     out.append(p)
             st.scalar_props = out
         return st.scalar_props
